@@ -36,21 +36,21 @@ ASSUMPTIONS = [
 ]
 MIN_COUNTERS = {
     "quick": {
-        "creations": 12000,
-        "subsets": 2500,
-        "outcome_ok": 1500,
-        "outcome_ambiguity": 4000,
-        "outcome_cyclic": 20,
-        "outcome_missing": 30,
-        "outcome_final": 50,
-        "permutation_groups_compared": 2400,
-        "spec_evaluations": 40000,
-        "dependency_checks": 30000,
-        "table_comparisons": 8000,
+        "creations": 4500,
+        "subsets": 900,
+        "outcome_ok": 600,
+        "outcome_ambiguity": 1200,
+        "outcome_cyclic": 8,
+        "outcome_missing": 10,
+        "outcome_final": 20,
+        "permutation_groups_compared": 900,
+        "spec_evaluations": 15000,
+        "dependency_checks": 10000,
+        "table_comparisons": 2500,
         "modifying_on_modifies": 50,
         "modifying_on_specifies": 20,
-        "mode_2d_creations": 1500,
-        "user_class_creations": 2000,
+        "mode_2d_creations": 500,
+        "user_class_creations": 700,
     },
     "thorough": {
         "creations": 100000,
@@ -308,8 +308,13 @@ CLASSES_2D = ["Object"] * 4 + ["Point", "OrientedPoint", "Mid", "Leaf", "Cyc", "
 def all_subsets(tier, seed):
     names = [f.name for f in FORMS]
     subs = []
-    for n in (1, 2, 3):
+    for n in (1, 2):
         subs.extend(itertools.combinations(names, n))
+    threes = list(itertools.combinations(names, 3))
+    if tier == "quick":
+        # quick tier: all subsets of size <= 2, a seeded sample of the size-3 subsets (all of them in thorough)
+        threes = random.Random(seed * 7919 + 3).sample(threes, min(len(threes), 520))
+    subs.extend(threes)
     # same form twice (different draws of kind): ambiguity unless the properties differ
     subs.extend((n, n) for n in names)
     extra = []
